@@ -24,6 +24,7 @@ import tempfile
 from typing import Any, Optional
 
 from ..harness import ROOT, Run, pmap, rotate, short, NCPU
+from ..catalogue import REPO
 
 PROPERTY = "C19"
 LEVEL = "model_checking"
@@ -206,7 +207,7 @@ def generate(out_dir: str, order: str, monitor: list) -> None:
             dirs[:] = list(d)
 
     cwd = os.getcwd()
-    os.chdir("/repo")
+    os.chdir(REPO)
     B._process_law, B._process_law_package = law, pkg
     if order == "reverse":
         B.os = type("osproxy", (), {"walk": staticmethod(walk)})()  # only walk is used
@@ -230,9 +231,9 @@ def expected_pages() -> dict[str, str]:
     """page name -> source path for every module / package with a title docstring"""
     from symplyphysics.docs.parse import find_title_and_description
     out = {}
-    base = "/repo/symplyphysics"
+    base = REPO + "/symplyphysics"
     for path, dirs, files in os.walk(base):
-        rel = os.path.relpath(path, "/repo")
+        rel = os.path.relpath(path, REPO)
         parts = rel.split(os.sep)
         if any(p.startswith((".", "_")) for p in parts) or (len(parts) > 1 and parts[1] == "core"):
             dirs[:] = []
@@ -402,7 +403,7 @@ def page_checks(out_dir: str, sample_every: int) -> list[tuple[str, str]]:
 def role_checks(out_dir: str) -> list[tuple[str, str]]:
     import symplyphysics.symbols as S
     import symplyphysics.quantities as Qm
-    spec = importlib.util.spec_from_file_location("repo_docs_build", "/repo/docs/build.py")
+    spec = importlib.util.spec_from_file_location("repo_docs_build", REPO + "/docs/build.py")
     out = []
     try:
         assert spec and spec.loader
@@ -481,11 +482,11 @@ def main(run: Run) -> int:
             json.dump(r, f)
         return 0
     # (b) in sub-processes (hash seeds), concurrently with (a)
-    os.makedirs(os.path.join(ROOT, "scratch"), exist_ok=True)
+    os.makedirs(os.environ.get("VERIF_SCRATCH_DIR") or os.path.join(ROOT, "scratch"), exist_ok=True)
     seeds = [0, 1, 2] if run.thorough else [0, 1]
     procs = []
     for s in seeds:
-        outf = os.path.join(ROOT, "scratch", f"c19_seed{s}.json")
+        outf = os.path.join(os.environ.get("VERIF_SCRATCH_DIR") or os.path.join(ROOT, "scratch"), f"c19_seed{s}.json")
         env = dict(os.environ, PYTHONHASHSEED=str(s), C19_PASS=outf, C19_PASS_MODE="main" if s == 0
             else "extra")
         procs.append((s, outf, subprocess.Popen([sys.executable, "-m", "vp.run", "C19", run.tier],
@@ -571,7 +572,7 @@ def main(run: Run) -> int:
 
 def _is_package_page(fn: str) -> bool:
     stem = fn[:-4]
-    return os.path.isdir(os.path.join("/repo/symplyphysics", stem.replace(".", os.sep)))
+    return os.path.isdir(os.path.join(REPO + "/symplyphysics", stem.replace(".", os.sep)))
 
 
 def replay(case: dict) -> list[str]:
